@@ -32,6 +32,7 @@ const N_GOOD_SLOTS: usize = 15;
 const T_PLAIN: u32 = 1;
 const T_INTERP: u32 = 2;
 const T_FIXED: u32 = 3;
+const T_OPEN: u32 = 4;
 
 fn plain_prog(lit: &str) -> String {
     format!(
@@ -95,6 +96,51 @@ fn fixed_cases() -> Vec<Case> {
             out.push(Case::new(format!("s := \"{}\"\na := {}\nt := s[a:]\nprint(\"tail\")\nu := s[:a]\nprint((u + t) == s)\n", s, a), T_FIXED, format!("open ranges at {} of {:?}", a, s)));
         }
     }
+    // text inside a slot is lexed when the slot is evaluated: every lexical error kind there is a
+    // reported error (after the output so far), never a crash
+    for (name, slot) in [
+        ("too-large integer", "99999999999999999999"),
+        ("invalid escape", "\"\\q\""),
+        ("unescaped dollar", "\"$\""),
+        ("bad slot start", "$\"$x\""),
+        ("bad hex digit", "\"\\xZZ\""),
+        ("short hex", "\"\\x4\""),
+        ("unexpected character", "1 ~ 2"),
+        ("unexpected multi-byte character", "1 é 2"),
+        ("unterminated string", "\"abc"),
+        ("lone backslash", "\\"),
+    ] {
+        for (pre, post) in [("", ""), ("é", "€"), ("a${x}", "${x}b")] {
+            out.push(Case::new(
+                format!("x := \"X\"\nprint(\"pre\")\ns := $\"{}${{{}}}{}\"\nprint(\"unreachable\")\n", pre, slot, post),
+                T_FIXED,
+                format!("lexical error in a slot: {} between {:?} and {:?}", name, pre, post),
+            ));
+        }
+    }
+    // layout inside a slot that leaves one expression: spaces, tabs, a leading line break or
+    // terminator, continuation line breaks
+    for slot in ["{ x }", "{\tx\t}", "{\nx}", "{;x}", "{x +\nx}", "{[x,\nx][0]}", "{f(\nx)}", "{ f( x ) }", "{\n\n  x}", "{x # c\n+ x}"] {
+        for (pre, post) in [("", ""), ("é", "€"), ("a${x}", "${x}b")] {
+            out.push(Case::new(
+                format!("x := \"X\"\nfn f(a) {{\nreturn a\n}}\nprint(\"pre\")\ns := $\"{}${}{}\"\nprint(s)\nprint(s->len())\n", pre, slot, post),
+                T_FIXED,
+                format!("layout in a slot {:?} between {:?} and {:?}", slot, pre, post),
+            ));
+        }
+    }
+    // layout after a complete slot expression (a trailing line break, terminator or comment): the
+    // statement leaves open whether the slot is then still one expression; a value or a reported
+    // error are both accepted, a crash is not (crashes are reported by the engine)
+    for slot in ["{x\n}", "{\nx\n}", "{x;}", "{x # c\n}", "{x \n+ x}", "{(x\n)}", "{x; x}"] {
+        for (pre, post) in [("", ""), ("é", "€")] {
+            out.push(Case::new(
+                format!("x := \"X\"\nprint(\"pre\")\ns := $\"{}${}{}\"\nprint(\"after\")\n", pre, slot, post),
+                T_OPEN,
+                format!("layout after a slot expression {:?} between {:?} and {:?}", slot, pre, post),
+            ));
+        }
+    }
     out
 }
 
@@ -108,7 +154,7 @@ impl Check for C15 {
         let max_ip = ctx.tier.pick(2usize, 3usize);
         let max_slots = 2usize;
         ctx.rule = format!(
-            "complete product: all plain literals of 0..{} pieces over {} pieces ({} valid: ASCII, space, braces, escapes \\\\ \\\" \\$ \\n \\r \\xHH (upper/lower case, leading zero), 2/3/4-byte characters, raw newline; 5 invalid: \\q, \\x4, \\xg1, raw $, trailing backslash); all interpolated literals of 0..{} pieces over {} pieces with 0..{} slots in every gap arrangement x {} slot expressions (10 string-valued incl. nested interpolation, braces and quotes inside the slot, multi-byte text inside the slot; 3 failing); {} fixed programs; non-trivial = all",
+            "complete product: all plain literals of 0..{} pieces over {} pieces ({} valid: ASCII, space, braces, escapes \\\\ \\\" \\$ \\n \\r \\xHH (upper/lower case, leading zero), 2/3/4-byte characters, raw newline; 5 invalid: \\q, \\x4, \\xg1, raw $, trailing backslash); all interpolated literals of 0..{} pieces over {} pieces with 0..{} slots in every gap arrangement x {} slot expressions (10 string-valued incl. nested interpolation, braces and quotes inside the slot, multi-byte text inside the slot; 3 failing); {} fixed programs incl. every lexical error kind inside a slot and layout (spaces, tabs, line breaks, terminators, comments) inside slots; non-trivial = all",
             max_plain,
             PIECES.len(),
             N_VALID,
@@ -217,6 +263,13 @@ impl Check for C15 {
     }
 
     fn oracle(&self, c: &Case, r: &RefOutcome, o: &Outcome) -> Verdict {
+        if c.tag == T_OPEN {
+            let out = o.out_str();
+            if !(out == "pre\n" && o.class == Class::Err || out == "pre\nafter\n" && o.class == Class::Ok) {
+                return viol("slot-layout", format!("{}: neither a value nor a reported error: {:?} printing {:?}", c.meta, o.class, out));
+            }
+            return Verdict::Pass;
+        }
         match &r.result {
             RefResult::Front(fe) => {
                 // invalid literal: reported before anything runs, at the offending character
